@@ -138,7 +138,8 @@ def run(ctx):
                "Taylor/Groenwall: first-order agreement of vector fields implies first-order agreement of error propagation",
                "|lat| <= 80 deg, 0 <= alt <= 20 km, |V_i| <= 300 m/s for the bounds of neglected terms")
     for wa in (True, False):
-        _model(ctx, py, wa)
+        ctx.guard(_model, ctx, py, wa)
+        ctx.guard(_history, ctx, py, wa)
     ctx.guard(_forms, ctx, py)
     ctx.guard(_propagate, ctx, py)
     from props import helpers
@@ -146,6 +147,19 @@ def run(ctx):
 
 
 _REAL_CONSTS = {}
+
+
+def _history(ctx, py, wa):
+    """system_matrices is specified as a function of the pva it is given: on ONE model object, the matrices returned
+    after a call at another pva are the matrices of a single call (every path of the two-call sequence)."""
+    from pvx.claims import history_independent
+    em = py.error_model.InsErrorModel(wa)
+
+    def code(v):
+        if not wa:
+            v = dict(v, VD=(RSym(sp.Integer(0)) if isinstance(v["phi"], RSym) else 0.0))
+        return list(em.system_matrices(make_pva(v)))
+    history_independent(ctx, "C04.%s.system_matrices" % ("3d" if wa else "2d"), ST, code, BOX, cos_nonneg=COSNN, py=py, tol=1e-10)
 
 
 def _model(ctx, py, wa):
